@@ -82,6 +82,8 @@ pub fn replay(j: &J) -> i32 {
         "C02" => {
             if j.get("kind").and_then(|k| k.as_str()) == Some("ladder") {
                 c02::ladder_case(&ctx, j.get("k").and_then(|k| k.as_i64()).unwrap_or(0) as usize, &mut rep)
+            } else if j.get("kind").and_then(|k| k.as_str()) == Some("pairs") {
+                c02::pairs_case(&ctx, j.get("k").and_then(|k| k.as_i64()).unwrap_or(0) as usize, &mut rep)
             } else {
                 c02::case(&ctx, shard, index, &mut rep)
             }
